@@ -46,16 +46,51 @@ func safeFloatToDec(f float64) decimal.Decimal {
 	return decimal.NewFromFloat(f)
 }
 
+// narrowInt returns the value as int32 if it fits and as int64 otherwise. This
+// mirrors MongoDB, which promotes the result of 32-bit integer arithmetic to a
+// 64-bit integer instead of wrapping around.
+func narrowInt(v int64) interface{} {
+	if v >= math.MinInt32 && v <= math.MaxInt32 {
+		return int32(v)
+	}
+	return v
+}
+
+// addInt64 adds two 64-bit integers and returns Missing on overflow (MongoDB
+// rejects such an update).
+func addInt64(a, b int64) interface{} {
+	c := a + b
+	if (a >= 0) == (b >= 0) && (c >= 0) != (a >= 0) {
+		return Missing
+	}
+	return c
+}
+
+// mulInt64 multiplies two 64-bit integers and returns Missing on overflow
+// (MongoDB rejects such an update).
+func mulInt64(a, b int64) interface{} {
+	if a == 0 || b == 0 {
+		return int64(0)
+	}
+	c := a * b
+	if c/b != a || (a == -1 && b == math.MinInt64) || (b == -1 && a == math.MinInt64) {
+		return Missing
+	}
+	return c
+}
+
 // Add will add together two numerical values. It accepts and returns int32,
-// int64, float64 and decimal128.
+// int64, float64 and decimal128. The sum of two int32 values that does not fit
+// is returned as int64; Missing is returned if a value is not a number or the
+// sum overflows int64.
 func Add(num, inc interface{}) interface{} {
 	switch num := num.(type) {
 	case int32:
 		switch inc := inc.(type) {
 		case int32:
-			return num + inc
+			return narrowInt(int64(num) + int64(inc))
 		case int64:
-			return int64(num) + inc
+			return addInt64(int64(num), inc)
 		case float64:
 			return float64(num) + inc
 		case primitive.Decimal128:
@@ -66,9 +101,9 @@ func Add(num, inc interface{}) interface{} {
 	case int64:
 		switch inc := inc.(type) {
 		case int32:
-			return num + int64(inc)
+			return addInt64(num, int64(inc))
 		case int64:
-			return num + inc
+			return addInt64(num, inc)
 		case float64:
 			return float64(num) + inc
 		case primitive.Decimal128:
@@ -108,15 +143,17 @@ func Add(num, inc interface{}) interface{} {
 }
 
 // Mul will multiply the two numerical values. It accepts and returns int32,
-// int64, float64 and decimal128.
+// int64, float64 and decimal128. The product of two int32 values that does not
+// fit is returned as int64; Missing is returned if a value is not a number or
+// the product overflows int64.
 func Mul(num, mul interface{}) interface{} {
 	switch num := num.(type) {
 	case int32:
 		switch mul := mul.(type) {
 		case int32:
-			return num * mul
+			return narrowInt(int64(num) * int64(mul))
 		case int64:
-			return int64(num) * mul
+			return mulInt64(int64(num), mul)
 		case float64:
 			return float64(num) * mul
 		case primitive.Decimal128:
@@ -127,9 +164,9 @@ func Mul(num, mul interface{}) interface{} {
 	case int64:
 		switch mul := mul.(type) {
 		case int32:
-			return num * int64(mul)
+			return mulInt64(num, int64(mul))
 		case int64:
-			return num * mul
+			return mulInt64(num, mul)
 		case float64:
 			return float64(num) * mul
 		case primitive.Decimal128:
